@@ -59,6 +59,26 @@ PROF = docs.profile(max_schemas=6, max_props=5, max_ops=3, max_depth=2, desc=Tru
 @st.composite
 def rich_doc(draw):
     ir = draw(docs.doc_ir(PROF, min_schemas=3))
+    comps = docs.comp_map(ir)
+    # how a component is *used* adds generated code of its own: object components that refer to two or more others may also be
+    # the multipart or form body of an extra operation (a second encoder, with imports of its own)
+    for k, (n, s) in enumerate(list(ir["schemas"])):
+        if s["k"] == "object" and len({r for r in _refs(s, []) if r != n}) >= 2 and draw(st.booleans()):
+            ir["ops"].append({"path": f"/zzupload{k}", "method": "post", "opid": f"zzUpload{k}", "tags": [], "summary": "", "security": False,
+                              "params": [], "body": {"required": True, "content": [[draw(st.sampled_from(["multipart/form-data", "multipart/form-data",
+                                                                                                             "application/x-www-form-urlencoded"])),
+                                                                                    {"k": "ref", "name": n}]]},
+                              "responses": [[200, None]]})
+    # two declarations of one string enum class (an inline property and a component named like the derived class) that list the
+    # same values in different order: which one is parsed last must not show
+    if draw(st.integers(0, 2)) == 0 and "ZzOrder" not in comps:
+        vals = draw(st.permutations(["pending", "shipped", "cancelled", "returned"]))
+        ir["schemas"].append(["ZzOrder", {"k": "object", "props": [["status", {"k": "enum", "base": "str", "values": list(vals), "null": False}, False]],
+                                          "addl": None, "allOf": []}])
+        ir["schemas"].append(["ZzOrderStatus", {"k": "enum", "base": "str", "values": list(reversed(vals)), "null": False}])
+        # ... and two component enums that share a title (the class is named after the title): both are built in the same phase
+        ir["schemas"].append(["ZzStateA", {"k": "enum", "base": "str", "values": list(vals), "null": False, "title": "Zz Shared State"}])
+        ir["schemas"].append(["ZzStateB", {"k": "enum", "base": "str", "values": list(reversed(vals)), "null": False, "title": "Zz Shared State"}])
     return ir
 
 
